@@ -556,6 +556,7 @@ fn run_case(w: &mut World, c: &Case) -> Outcome {
                     match op {
                         TieredOp::Exec { now, sender, kind: TieredOpKind::Migrate { name, version } } => {
                             chain::set_time(&mut app, *now);
+                            let specs_before = stored_specs(&app, addr).ok();
                             crate::w_migrate::set_cw2(&mut app, addr, name.as_deref().unwrap_or(TIERED_CW2), version);
                             let before = chain::storage_digest(&app, addr);
                             let r = match catch(|| app.migrate_contract(Addr::unchecked(sender.as_str()), addr.clone(), &cosmwasm_std::Empty {}, code)) {
@@ -573,7 +574,7 @@ fn run_case(w: &mut World, c: &Case) -> Outcome {
                                 viol.push(("C14:tiered-rejected-call-wrote".to_string(), format!("{} was rejected but storage changed", what)));
                             }
                             if !swept.is_empty() {
-                                steps += sweep_tiered(&mut app, addr, &swept, &what, &mut viol);
+                                steps += sweep_tiered(&mut app, addr, &swept, specs_before, &what, &mut viol);
                             }
                             hist.push(format!("tiered:migrate:{}", if r.is_ok() { "ok" } else { "err" }));
                             coq_ops.push(format!(
@@ -644,7 +645,7 @@ fn run_case(w: &mut World, c: &Case) -> Outcome {
                                 viol.push(("C14:tiered-rejected-call-wrote".to_string(), format!("{} by {} was rejected but storage changed", tag, sender)));
                             }
                             if !swept.is_empty() {
-                                steps += sweep_tiered(&mut app, addr, &swept, &format!("{} by {}", tag, sender), &mut viol);
+                                steps += sweep_tiered(&mut app, addr, &swept, None, &format!("{} by {}", tag, sender), &mut viol);
                             }
                             hist.push(format!("tiered:{}:{}", tag, if r.is_ok() { "ok" } else { "err" }));
                             coq_ops.push(match coqm {
@@ -830,21 +831,30 @@ fn sweep_flat(app: &App, addr: &Addr, b: &Built, after: &str, viol: &mut Vec<(St
 /// the same for the tiered contract: in the middle of every stage the contract currently
 /// stores, the entries of that stage's list are accepted with their own
 /// proofs, outsiders and entries of other stages' lists are not
-fn sweep_tiered(app: &mut App, addr: &Addr, built: &[Built], after: &str, viol: &mut Vec<(String, String)>) -> u64 {
+/// the stage windows as stored now (raw CONFIG item: the Stages query indexes the roots and
+/// panics when there are fewer roots than stages)
+fn stored_specs(app: &App, addr: &Addr) -> Result<Vec<StageSpec>, String> {
+    tiered_whitelist_merkletree::state::CONFIG
+        .load(&*app.contract_storage(addr))
+        .map(|c| {
+            c.stages
+                .iter()
+                .map(|s| StageSpec { start: s.start_time.nanos(), end: s.end_time.nanos(), denom: s.mint_price.denom.clone(), limit: s.per_address_limit })
+                .collect()
+        })
+        .map_err(|e| e.to_string())
+}
+/// `expect`: the windows that must be in force (after a migrate: the ones stored before it,
+/// a migrate may not change the schedule); None: the ones stored now (after an Execute)
+fn sweep_tiered(app: &mut App, addr: &Addr, built: &[Built], expect: Option<Vec<StageSpec>>, after: &str, viol: &mut Vec<(String, String)>) -> u64 {
     let mut n = 1;
-    // the stage windows as stored now (raw CONFIG item: the Stages query indexes the roots and
-    // panics when there are fewer roots than stages)
-    let stages = match tiered_whitelist_merkletree::state::CONFIG.load(&*app.contract_storage(addr)) {
-        Ok(c) => c.stages,
+    let specs = match expect.map(Ok).unwrap_or_else(|| stored_specs(app, addr)) {
+        Ok(s) => s,
         Err(e) => {
             viol.push(("C14:tiered-root-changed".to_string(), format!("after {}: the stored config does not load: {}", after, e)));
             return n;
         }
     };
-    let specs: Vec<StageSpec> = stages
-        .iter()
-        .map(|s| StageSpec { start: s.start_time.nanos(), end: s.end_time.nanos(), denom: s.mint_price.denom.clone(), limit: s.per_address_limit })
-        .collect();
     let outsider = stars_addr(999_999, 77);
     let saved = chain::now(app);
     for (i, sp) in specs.iter().enumerate() {
@@ -1447,6 +1457,19 @@ fn flat_hist_cases(a: &Args, rng: &mut Rng) -> Vec<Case> {
             });
         }
     }
+    // the same upgrade over a root stored in upper / mixed case: the stored string itself stays
+    for mode in [1u8, 2] {
+        let init = FlatInit { root: spell(&root, mode), ..two_admins.clone() };
+        for ver in ["3.0.0".to_string(), "3.9.0".into(), cur.clone()] {
+            v.push(Case::FlatHist { members: None,
+                now: BASE, init: init.clone(),
+                ops: vec![
+                    q(1), FlatOp::Exec { now: BASE + 5, sender: CREATOR.into(), kind: FlatOpKind::Migrate { name: None, version: ver.clone() } }, q(1), q(4),
+                    FlatOp::Exec { now: BASE + 6, sender: STRANGER.into(), kind: FlatOpKind::Migrate { name: None, version: ver } }, q(2),
+                ],
+            });
+        }
+    }
     // structured random histories
     let nh = if a.thorough() { 400 } else { 40 };
     for _ in 0..nh {
@@ -1603,6 +1626,18 @@ fn tiered_hist_cases(a: &Args, rng: &mut Rng) -> Vec<Case> {
             });
         }
     }
+    for mode in [1u8, 2] {
+        let init = TieredInit { roots: roots.iter().map(|r| spell(r, mode)).collect(), ..d.clone() };
+        for ver in ["3.0.0".to_string(), cur.clone()] {
+            v.push(Case::TieredHist { lists: vec![],
+                now: BASE, init: init.clone(),
+                ops: vec![
+                    q(0, 1, mid(0)), TieredOp::Exec { now: BASE + 5, sender: CREATOR.into(), kind: TieredOpKind::Migrate { name: None, version: ver } },
+                    q(0, 1, mid(0)), q(1, 2, mid(1)), q(2, 3, mid(2)),
+                ],
+            });
+        }
+    }
     // every integer literal of the tiered contract's source (and neighbours) joins the limit pool
     let mut limit_pool: Vec<u32> = vec![0, 1, 2, 49, 50, 51];
     for l in harvest_literals(&[
@@ -1664,7 +1699,7 @@ fn tiered_hist_cases(a: &Args, rng: &mut Rng) -> Vec<Case> {
     // histories whose stored roots are the first k true roots: sweep membership after every step
     for c in v.iter_mut() {
         if let Case::TieredHist { init, lists, .. } = c {
-            if !init.roots.is_empty() && init.roots.len() <= 3 && init.roots.iter().zip(roots.iter()).all(|(x, y)| x == y) {
+            if !init.roots.is_empty() && init.roots.len() <= 3 && init.roots.iter().zip(roots.iter()).all(|(x, y)| x.eq_ignore_ascii_case(y)) {
                 *lists = (0..init.roots.len()).map(|s| Members::Stars { n: 4 + s, salt: 40 + s as u64, dups: vec![] }).collect();
             }
         }
